@@ -37,6 +37,11 @@ type Description struct {
 	QuickBudgetS   int
 	ThoroughBudget int // seconds
 	SimTimeUnit    string
+	// ReplayAttempts > 1: the property is about repeated execution of the code under test (C07: results
+	// independent of map iteration order), so a counterexample is a history at which a repetition diverges
+	// with some probability; a replay is then repeated up to this many times and counts as reproduced
+	// when any repetition shows the violation.  The harness's own choices are identical every time.
+	ReplayAttempts int
 	Extra          map[string]interface{}
 }
 
@@ -331,10 +336,18 @@ func doWorker(e Engine, property, tier string, seed uint64, cfg map[string]strin
 }
 
 func execReplay(e Engine, property, tier string, seed, run uint64, cfg map[string]string, known map[string]bool, values []int) (*Run, *Violation, string) {
-	r := newRun(NewReplayStream(values), seed, run, property, tier, cfg, known)
-	r.MaxDraws = 2000000
-	v, fatal := safeExecute(e, r)
-	return r, v, fatal
+	attempts := e.Describe(property).ReplayAttempts
+	if attempts > 3 {
+		attempts = 3 // minimisation: a few repetitions per candidate
+	}
+	for i := 1; ; i++ {
+		r := newRun(NewReplayStream(values), seed, run, property, tier, cfg, known)
+		r.MaxDraws = 2000000
+		v, fatal := safeExecute(e, r)
+		if v != nil || fatal != "" || i >= attempts {
+			return r, v, fatal
+		}
+	}
 }
 
 // minimiseAndWrite shrinks the choice list by delta debugging while the same violation class of the
@@ -527,13 +540,25 @@ func doReplay(e Engine, path string) int {
 	if os.Getenv("VERIF_IGNORE_KNOWN") != "" {
 		known = map[string]bool{}
 	}
-	r := newRun(NewReplayStream(rf.Choices), rf.Seed, rf.Run, rf.Property, rf.Tier, rf.Cfg, known)
-	r.KeepLog = *fFullLog
-	r.MaxDraws = 2000000
-	v, fatal := safeExecute(e, r)
-	if fatal != "" {
-		fmt.Fprintln(os.Stderr, fatal)
-		return 2
+	attempts := e.Describe(rf.Property).ReplayAttempts
+	var r *Run
+	var v *Violation
+	for i := 1; ; i++ {
+		r = newRun(NewReplayStream(rf.Choices), rf.Seed, rf.Run, rf.Property, rf.Tier, rf.Cfg, known)
+		r.KeepLog = *fFullLog
+		r.MaxDraws = 2000000
+		var fatal string
+		v, fatal = safeExecute(e, r)
+		if fatal != "" {
+			fmt.Fprintln(os.Stderr, fatal)
+			return 2
+		}
+		if v != nil || i >= attempts {
+			if attempts > 1 {
+				fmt.Printf("repetition %d of at most %d (the property quantifies over repeated executions)\n", i, attempts)
+			}
+			break
+		}
 	}
 	if *fFullLog {
 		for _, l := range r.FullLog {
